@@ -26,7 +26,7 @@ import (
 	"verif/harness/proc"
 )
 
-var killPoints = []string{"beforeSave", "afterSave", "applied", "beforeSendFollower", "afterAdvance", "snapshot.trigger", "snapshot.done"}
+var killPoints = []string{"beforeSave", "beforeSave", "beforeSave", "afterSave", "afterSave", "applied", "applied", "beforeSendFollower", "afterAdvance", "snapshot.trigger", "snapshot.done"}
 
 func TestC03Proc(t *testing.T) {
 	rec := shared
@@ -150,7 +150,7 @@ func procCase(rec *mon.Recorder, c int) {
 	if rng.Intn(3) != 0 || point == "snapshot.trigger" || point == "snapshot.done" {
 		snapEvery = 2 + rng.Intn(6)
 	}
-	k := 1 + rng.Intn(30)
+	k := 1 + rng.Intn(20)
 	if point == "snapshot.trigger" || point == "snapshot.done" {
 		k = 1 + rng.Intn(4)
 		if group == "zero" {
@@ -166,12 +166,13 @@ func procCase(rec *mon.Recorder, c int) {
 	}
 	rejoin := rng.Intn(3) != 0
 	killAfterAcks := int64(1 + rng.Intn(22))
+	pause := c%4 < 2 || point == "beforeSave"
 	p := &pcase{rec: rec, victim: victim}
 	p.hitKind = mode
 	if mode == "kill-point" {
 		p.hitKind = group + "/" + point
 	}
-	p.desc = fmt.Sprintf("proc case=%d nodes=%d victim=%d mode=%s point=%s:%s@%d snapshot-every=%d rejoin=%v kill-after-acks=%d", c, nodes, victim+1, mode, group, point, k, snapEvery, rejoin, killAfterAcks)
+	p.desc = fmt.Sprintf("proc case=%d nodes=%d victim=%d mode=%s point=%s:%s@%d snapshot-every=%d rejoin=%v kill-after-acks=%d pause-before-kill=%v", c, nodes, victim+1, mode, group, point, k, snapEvery, rejoin, killAfterAcks, pause)
 	p.replay = map[string]interface{}{"desc": p.desc, "seed": rec.Seed()}
 	rec.Current(p.desc)
 	dir := filepath.Join(os.Getenv("VERIF_SCRATCH"), fmt.Sprintf("c03proc-%d", c))
@@ -193,6 +194,11 @@ func procCase(rec *mon.Recorder, c int) {
 		}
 		if i == victim && mode == "kill-point" {
 			s.Env = append(s.Env, fmt.Sprintf("VERIF_KILL_AT=%s:%s@%d", group, point, k), "VERIF_KILL_ARM=signal")
+			if pause {
+				// the loop that reached the point is held for 10 ms before the process dies: replies that
+				// were already on their way out leave, nothing more is written by that loop
+				s.Env = append(s.Env, "VERIF_KILL_DELAY=10ms")
+			}
 		}
 		p.srv = append(p.srv, s)
 		if err := s.Start(); err != nil {
